@@ -731,3 +731,171 @@ Proof.
               apply in_app_iff in Hg as [Hg|Hg]; apply in_or_app; simpl; auto.
            ++ eauto.
 Qed.
+
+(* --- registration --- *)
+Lemma register_FI st c ag lo :
+  FI st lo -> snd (register st c ag) <> ORaised ->
+  FI (fst (register st c ag)) lo /\
+  (forall f, In f (failed (fst (register st c ag))) -> m_dest f <> c).
+Proof.
+  intros [H1 H2 H3] Hnr. unfold register in *. cbv zeta in *.
+  change (set_disc st (dict_set Z.eqb c ag (disc st))) with (reg_disc st c ag) in *.
+  set (st1 := reg_disc st c ag) in *.
+  assert (Hother : forall f, In f (failed st) -> m_dest f <> c ->
+            zlookup (m_dest f) (disc st1) = None /\ zmem (m_dest f) (subs st1) = true).
+  { intros f Hf Hne. destruct (H2 f Hf) as [Ha Hb]. simpl. split; auto.
+    now rewrite zlookup_set_other. }
+  destruct (negb (option_eqb Z.eqb (zlookup c (disc st)) (Some ag)) && zmem c (subs st1)) eqn:Econd.
+  - (* replay *)
+    destruct (replay c (failed st1) st1) as [st2 ok] eqn:Er.
+    destruct ok; [|simpl in Hnr; congruence]. simpl.
+    assert (HRI : RI c st1 (failed st1) [] lo).
+    { constructor.
+      - reflexivity.
+      - constructor.
+      - intros c' t. apply H1.
+      - intros f Hf Hne. apply (Hother f Hf Hne).
+      - exact H3.
+      - exists ag. apply zlookup_set_same. }
+    pose proof (replay_RI c (failed st1) st1 [] lo st2 HRI Er) as [B0 B1 B2 B3 B4 B5].
+    simpl in B0, B1. rewrite app_nil_r in B0.
+    assert (Hdest : forall f, In f (failed st2) -> m_dest f <> c).
+    { intros f Hf. rewrite B0 in Hf. rewrite Forall_forall in B1. auto. }
+    split; [constructor; simpl; auto|exact Hdest].
+    intros f Hf. pose proof (Hdest f Hf) as Hne. destruct (B3 f Hf Hne) as [Ha Hb]. split; auto.
+    now apply zmem_del_sub.
+  - (* no callback fires: nothing was deferred for c *)
+    simpl.
+    assert (Hdest : forall f, In f (failed st) -> m_dest f <> c).
+    { intros f Hf Hd. destruct (H2 f Hf) as [Ha Hb]. rewrite Hd in Ha, Hb.
+      simpl in Econd. rewrite Ha, Hb in Econd. simpl in Econd. discriminate. }
+    split; [constructor; simpl; auto|exact Hdest].
+    intros f Hf. apply (Hother f Hf). auto.
+Qed.
+
+Lemma unregister_FI st c p lo : FI st lo -> FI (unregister st c p) lo.
+Proof.
+  intros [H1 H2 H3]. unfold unregister. destruct (zlookup c (disc st)) eqn:Ec; [|constructor; auto].
+  assert (Hne : forall f, In f (failed st) -> m_dest f <> c).
+  { intros f Hf Hd. destruct (H2 f Hf) as [Ha _]. rewrite Hd in Ha. congruence. }
+  destruct p; constructor; simpl; auto; intros f Hf; destruct (H2 f Hf) as [Ha Hb]; split;
+    auto using zlookup_remove_none.
+  apply zmem_del_sub; auto.
+Qed.
+
+Definition nlo (lo : Z) (o : op) : Z := match o with Post _ _ i _ => i + 1 | _ => lo end.
+
+(* the message ids (payloads) of the posts increase along the history: id = posting index *)
+Fixpoint ids_ok (lo : Z) (ops : list op) : Prop :=
+  match ops with
+  | [] => True
+  | o :: r => match o with Post _ _ i _ => lo <= i | _ => True end /\ ids_ok (nlo lo o) r
+  end.
+
+Definition noraise (l : list outcome) : bool :=
+  forallb (fun x => match x with ORaised => false | _ => true end) l.
+
+Lemma step_FI st o lo :
+  FI st lo -> match o with Post _ _ i _ => lo <= i | _ => True end -> snd (step st o) <> ORaised ->
+  FI (fst (step st o)) (nlo lo o).
+Proof.
+  intros H Hid Hnr. destruct o; simpl in *.
+  - now apply post_FI.
+  - now apply register_FI.
+  - now apply unregister_FI.
+  - now apply next_FI.
+  - destruct H as [H1 H2 H3]. constructor; auto.
+  - unfold drain. now apply drain_fuel_FI.
+Qed.
+
+Lemma run_cons st o r :
+  run st (o :: r) = (fst (run (fst (step st o)) r), snd (step st o) :: snd (run (fst (step st o)) r)).
+Proof. simpl. destruct (step st o) as [st1 x]. simpl. destruct (run st1 r). reflexivity. Qed.
+
+Lemma exec_FI ops : forall st lo,
+  FI st lo -> ids_ok lo ops -> noraise (snd (run st ops)) = true -> exists lo', FI (exec st ops) lo'.
+Proof.
+  induction ops as [|o r IH]; intros st lo H Hid Hnr.
+  - exists lo. exact H.
+  - rewrite exec_cons. rewrite run_cons in Hnr. simpl in Hnr, Hid.
+    apply andb_true_iff in Hnr as [Hn1 Hn2]. destruct Hid as [Hi1 Hi2].
+    apply (IH _ (nlo lo o)); auto. apply step_FI; auto.
+    intros E. rewrite E in Hn1. discriminate.
+Qed.
+
+Lemma init_FI a d lo : FI (init a d) lo.
+Proof.
+  constructor; simpl.
+  - intros c t. apply ss_single.
+  - intros f [].
+  - split; constructor.
+Qed.
+
+Lemma FI_handled st lo c t : FI st lo -> SS (ids (filter (P c t) (handled st))).
+Proof.
+  intros [H1 _ _]. specialize (H1 c t). unfold hq in H1.
+  apply ss_app_iff in H1 as (H1 & _). apply ss_app_iff in H1 as (H1 & _).
+  apply ss_app_iff in H1 as (H1 & _). exact H1.
+Qed.
+
+Lemma fifo_per_destination_and_type_l a d lo ops :
+  ids_ok lo ops -> noraise (snd (run (init a d) ops)) = true ->
+  forall c t, SS (ids (filter (P c t) (handled (exec (init a d) ops)))).
+Proof.
+  intros Hid Hnr c t. destruct (exec_FI ops _ lo (init_FI a d lo) Hid Hnr) as [lo' H].
+  eapply FI_handled; eauto.
+Qed.
+
+Lemma ids_ok_app lo a b : ids_ok lo (a ++ b) -> ids_ok lo a.
+Proof.
+  revert lo. induction a as [|o r IH]; intros lo H; simpl in *; auto.
+  destruct H. split; auto.
+Qed.
+
+Lemma noraise_run_app st a b :
+  noraise (snd (run st (a ++ b))) = true ->
+  noraise (snd (run st a)) = true /\ noraise (snd (run (exec st a) b)) = true.
+Proof.
+  revert st. induction a as [|o r IH]; intros st H.
+  - simpl in *. auto.
+  - rewrite <- app_comm_cons in H. rewrite run_cons in *. simpl in *.
+    apply andb_true_iff in H as [H1 H2]. apply IH in H2 as [H2 H3].
+    rewrite H1, H2. rewrite exec_cons. auto.
+Qed.
+
+Lemma ids_ok_last lo a b : ids_ok lo (a ++ b) -> exists lo', ids_ok lo' b /\ forall st,
+  FI st lo -> noraise (snd (run st a)) = true -> FI (exec st a) lo'.
+Proof.
+  revert lo. induction a as [|o r IH]; intros lo H; simpl in *.
+  - exists lo. split; auto.
+  - destruct H as [H1 H2]. destruct (IH _ H2) as (lo' & Hb & Hf). exists lo'. split; auto.
+    intros st HFI Hnr. rewrite run_cons in Hnr. simpl in Hnr. apply andb_true_iff in Hnr as [Hn1 Hn2].
+    rewrite exec_cons. apply Hf; auto. apply step_FI; auto.
+    intros E. rewrite E in Hn1. discriminate.
+Qed.
+
+(* messages posted to a computation that registers later: once it registers on this agent
+   (and the loop drains), none is left deferred or queued and they were handled in posting order *)
+Lemma late_registration_in_order_l a d lo ops c :
+  ids_ok lo ops ->
+  noraise (snd (run (init a d) (ops ++ [Register c a; Drain]))) = true ->
+  let st := exec (init a d) (ops ++ [Register c a; Drain]) in
+  (forall f, In f (failed st) -> m_dest f <> c) /\ queue st = [] /\
+  forall t, SS (ids (filter (P c t) (handled st))).
+Proof.
+  intros Hid Hnr st.
+  apply noraise_run_app in Hnr as [Hn1 Hn2].
+  destruct (exec_FI ops _ lo (init_FI a d lo) Hid Hn1) as [lo' H].
+  unfold st. rewrite exec_app. set (s0 := exec (init a d) ops) in *.
+  rewrite run_cons in Hn2. simpl in Hn2. apply andb_true_iff in Hn2 as [Hr _].
+  assert (Hr' : snd (register s0 c a) <> ORaised) by (intros E; rewrite E in Hr; discriminate).
+  destruct (register_FI s0 c a lo' H Hr') as [HF Hd].
+  rewrite exec_cons. simpl. change (exec (fst (register s0 c a)) [Drain]) with (drain (fst (register s0 c a))).
+  destruct (drain_spec (fst (register s0 c a))) as (D1 & D2 & D3).
+  assert (Hfail : failed (drain (fst (register s0 c a))) = failed (fst (register s0 c a))).
+  { unfold drain. generalize (List.length (queue (fst (register s0 c a)))).
+    intros n. generalize (fst (register s0 c a)). induction n as [|n IHn]; intros s; simpl; auto.
+    destruct (queue s) eqn:E; auto. rewrite IHn. unfold next. rewrite E. reflexivity. }
+  split; [now rewrite Hfail|]. split; auto.
+  intros t. eapply FI_handled. unfold drain. apply drain_fuel_FI. exact HF.
+Qed.
